@@ -49,6 +49,12 @@ def call_ref(it, name, args, kwargs, node, fr):
         return call_pandas(it, fn, args, kwargs, node, fr)
     if name.startswith(ROT):
         return call_rotation_ctor(it, name[len(ROT) + 1:], args, kwargs, node)
+    if name in ("scipy.spatial.KDTree", "scipy.spatial.cKDTree", "sklearn.neighbors.KDTree", "sklearn.neighbors.BallTree") and args:
+        u = Unk(call(name, to_term(args[0])))
+        u.is_tree = True
+        u.tree_data = args[0]
+        u.tree_space = getattr(args[0], "space", None)
+        return u
     if name == "copy.deepcopy" or name == "copy.copy":
         return deep_copy(args[0])
     if name == "decimal.Decimal":
@@ -220,8 +226,9 @@ def call_numpy(it, name, mod, fn, args, kwargs, node, fr):
         from . import imgdom as _img
         r.axes = [_img.Axis(idx, length, name="arange")]
         so = getattr(stop, "shape_of", None)
-        if so is not None and len(args) == 1:
+        if so is not None and tm.cval(st) == 0 and tm.cval(se) == 1 and getattr(stop, "axis", 0) == 0:
             r.space = r.pos_of = getattr(so, "space", None)
+            r.identity_positions = True
         r.arange_n = stop if len(args) == 1 else None
         return r
     if fn in ("zeros", "ones", "empty", "full", "zeros_like", "ones_like", "empty_like", "full_like"):
@@ -848,6 +855,24 @@ def call_method(it, recv, name, args, kwargs, node, fr):
         u = Val(call(f".{recv.name}.{name}", to_term(base), *[to_term(a) for a in args]), space=getattr(base, "space", None),
                 series=True)
         u.method_chain = (recv.name, name, base, args)
+        return u
+    if isinstance(recv, Unk) and getattr(recv, "is_tree", False) and name in ("query", "query_ball_point", "query_radius"):
+        it.record("call", "method:" + name, [recv] + args, dict(kwargs), node)
+        qsp = getattr(args[0], "space", None) if args else None
+        base_t = call("." + name, recv.term, *[to_term(a) for a in args], *[mk("kw", const(k), to_term(v)) for k, v in kwargs.items()])
+        if name == "query":
+            dist = Val(call("unpack", base_t, const(0)), space=qsp)
+            idx = Val(call("unpack", base_t, const(1)), space=qsp, pos_of=recv.tree_space)
+            dist.tree_query = idx.tree_query = (recv, args[0] if args else None)
+            if _flag(kwargs, "return_distance", True) is False:
+                return idx
+            return Seq([dist, idx], "tuple")
+        u = Unk(base_t, space=None)
+        u.pos_of = recv.tree_space
+        u.tree_query = (recv, args[0] if args else None)
+        if _flag(kwargs, "return_distance", False) is True:
+            d_ = Unk(call("unpack", base_t, const(1)))
+            return Seq([u, d_], "tuple")
         return u
     if isinstance(recv, Unk):
         it.record("call", "method:" + name, [recv] + args, dict(kwargs), node)
